@@ -73,6 +73,8 @@ type Conn struct {
 	Pkts     []*PktRec // decoded broker->client packets
 	closeSeq int
 	openSeq  int
+	readStarted  bool
+	firstReadSeq int
 	handler  *verifsim.Task
 	bytesIn  int
 
@@ -97,6 +99,14 @@ type PktRec struct {
 }
 
 func (c *Conn) Read(p []byte) (int, error) {
+	c.mu.Lock()
+	if !c.readStarted {
+		// the broker's handler for this connection has started (its first read): C36 needs to know whether a
+		// handler was already running when shutdown began
+		c.readStarted = true
+		c.firstReadSeq = c.ex.H.add(&Ev{Kind: "handler-started", Conn: c.Idx})
+	}
+	c.mu.Unlock()
 	for {
 		c.mu.Lock()
 		if len(c.in) > 0 {
